@@ -195,3 +195,61 @@ func hasSuffixAny(s string, suf ...string) bool {
 	}
 	return false
 }
+
+// sysstepKnown is the set of syscalls the stepper counts (tools/sysstep.c).
+var sysstepKnown = map[string]bool{"openat": true, "open": true, "creat": true, "read": true, "pread64": true, "write": true, "pwrite64": true,
+	"writev": true, "close": true, "rename": true, "renameat": true, "renameat2": true, "unlink": true, "unlinkat": true, "fsync": true,
+	"fdatasync": true, "ftruncate": true, "fchmod": true, "fchmodat": true, "chmod": true, "newfstatat": true, "fstat": true, "lstat": true,
+	"stat": true, "truncate": true, "link": true, "linkat": true, "symlink": true, "symlinkat": true, "mkdir": true, "mkdirat": true,
+	"rmdir": true, "chown": true, "lchown": true, "fchownat": true, "fchown": true, "utimensat": true, "fallocate": true,
+	"copy_file_range": true, "sendfile": true, "statx": true}
+
+// straceBenign are calls that mention a path or descriptor of the scenario directory but neither
+// change nor read file content or names; the stepper need not count them.
+var straceBenign = map[string]bool{"execve": true, "fcntl": true, "epoll_ctl": true, "lseek": true, "ioctl": true, "mmap": true,
+	"getdents64": true, "faccessat": true, "faccessat2": true, "access": true, "readlink": true, "readlinkat": true, "chdir": true,
+	"getcwd": true, "fadvise64": true, "flock": true}
+
+// straceNames runs gxz under strace (-f -y: descriptors are printed with their paths) and
+// returns the names of all file and descriptor syscalls whose line mentions dir, in order.
+func straceNames(dir string, args []string) ([]string, error) {
+	st, err := exec.LookPath("strace")
+	if err != nil {
+		return nil, err
+	}
+	logp := filepath.Join(dir, "..", filepath.Base(dir)+".strace")
+	defer os.Remove(logp)
+	outp := filepath.Join(dir, "..", filepath.Base(dir)+".stdout")
+	of, err := os.Create(outp)
+	if err != nil {
+		return nil, err
+	}
+	defer os.Remove(outp)
+	a := append([]string{"-f", "-y", "-qq", "-e", "trace=%file,%desc", "-o", logp, gxzBinary()}, args...)
+	cmd := exec.Command(st, a...)
+	cmd.Dir = "/" // -y prints AT_FDCWD with the working directory: keep dir out of unrelated lines
+	cmd.Stdout = of
+	cmd.Env = append(os.Environ(), "GOMAXPROCS=2")
+	runErr := cmd.Run()
+	of.Close()
+	b, err := os.ReadFile(logp)
+	if err != nil {
+		return nil, fmt.Errorf("strace: %v / %v", runErr, err)
+	}
+	var names []string
+	for _, ln := range strings.Split(string(b), "\n") {
+		if !strings.Contains(ln, dir) {
+			continue
+		}
+		f := strings.Fields(ln)
+		if len(f) < 2 {
+			continue
+		}
+		i := strings.IndexByte(f[1], '(')
+		if i <= 0 {
+			continue // "<... x resumed>" lines carry no arguments
+		}
+		names = append(names, f[1][:i])
+	}
+	return names, nil
+}
